@@ -27,7 +27,7 @@ for f in metas:
     rows.append("| %s | %s | %s | %s |" % (sid, t[:230], how, last))
 head = """## 10. Seeded changes: which check catches which change
 
-%d changes in nine rounds, each written by a fresh sub-agent that saw only one property's text (rounds 2 to 9 also one-line
+%d changes in ten rounds, each written by a fresh sub-agent that saw only one property's text (rounds 2 to 10 also one-line
 descriptions of that property's earlier changes, to avoid repeats, and a request for changes that are hard to notice:
 release-only, particular element classes, multi-step storage states, allocator refusal, panics at the k-th callback,
 boundary arguments, cooperating edits, rarely used APIs) and a scratch worktree. Each was confirmed (the crate's suite passes,
